@@ -8,7 +8,7 @@ META = dict(
         quick="real BacktestingDispatcher on asyncio; 1-2 sources x 2 events and 3 jobs, all with symbolic microsecond "
               "timestamps (jobs anywhere from 2 days before the first possible event to 5 days after the last), every "
               "insertion order of the jobs (solver-chosen permutation), a job scheduled from a handler, a job scheduled "
-              "from a job, a raising job, max_concurrent symbolic in 1..2; 6 jobs with symbolic times and no events",
+              "from a job, a raising job, max_concurrent symbolic in 1..2; 6 jobs with symbolic times and no events; 2 jobs whose times are given in UTC / UTC+2 / UTC-3",
         thorough="adds 4 jobs, 2 sources x 3 events, max_concurrent 1..3"),
     stubs=["logging disabled", "uuid.uuid4 deterministic"],
     assumptions=["sources yield events in non-decreasing time order", "a job and an event with the same timestamp may "
@@ -35,6 +35,9 @@ def jobs(tier):
             sample_every=50),
         Job("1x2 events, 1 job, two jobs from one handler", "scenario",
             dict(BASE, nsrc=1, nev=2, njobs=1, max_mc=2, job_from_handler=2), split=200, max_paths=400000,
+            validate_every=200, sample_every=400),
+        Job("1x2 events, 2 jobs, job times given in other time zones", "scenario",
+            dict(BASE, nsrc=1, nev=2, njobs=2, max_mc=1, job_zones=True), split=200, max_paths=400000,
             validate_every=200, sample_every=400),
         # long job lists (the scheduler's heap needs >= 6 entries before every shape of sift-up/down occurs)
         Job("no events, 6 jobs, any times", "scenario", dict(BASE, nsrc=1, nev=0, njobs=6, max_mc=1, job_perms=False),
